@@ -429,6 +429,16 @@ def c20():
         str(o.dispatch.__doc__)
     except Exception:
         pass
+    # the read-only diagnostics are not a change of the method set either
+    import contextlib
+    import io
+
+    for diag in (lambda: o.display_methods(), lambda: o.display_resolution(B()), lambda: repr(o), lambda: o.resolve(B)):
+        try:
+            with contextlib.redirect_stdout(io.StringIO()):
+                diag()
+        except Exception:
+            pass
     before = counter["n"]
     for _ in range(2):
         for p in probes:
